@@ -4,6 +4,7 @@ import SeqVerif.Model.WPPlain
 import SeqVerif.Model.FileWriterProofs
 import SeqVerif.Model.WPConcurrent
 import SeqVerif.Model.BulkHandler
+import SeqVerif.Model.LidQueue
 import SeqVerif.Extracted.C01
 /-!
 # C01 - acknowledged bulks survive any crash/restart history, intact and uncorrupted
@@ -389,6 +390,22 @@ example : BulkH.doBulk 10 3 ⟨fun _ => true, fun _ => .acked, 1, 32⟩ = .ctxEr
 example : BulkH.doBulk 10 0 ⟨fun _ => false, fun _ => .acked, 1, 32⟩ = .protoErr ∧
     BulkH.doBulk 10 1 ⟨fun _ => false, fun _ => .acked, 2, 1⟩ = .limitErr := by decide
 
+/-! ## Hand-over of a token's queued LIDs to the merge (Model/LidQueue.lean) -/
+
+/-- **C01 (the merge reads what it was given).**  `getQueuedLIDs` hands the queue over by value (`tl.queue = nil`):
+whatever is queued afterwards, in any number of `PutLIDsInQueue` calls, the slice the merge is sorting - outside the
+queue lock - keeps its contents.  (Replay after a restart runs all index workers while the merge workers are woken by
+queues above 10000 LIDs: the `crash-restart` oracle's hot-token histories exercise exactly this overlap.) -/
+theorem c01_queue_handover_by_value (q : List Nat) (cap : Nat) (batches : List (List Nat)) :
+    LidQ.view (LidQ.puts (LidQ.take q cap true) batches) = q := by
+  rw [LidQ.puts_own batches _ [] rfl]
+  simp [LidQ.view, LidQ.take]
+
+/-- resetting the queue to `queue[:0]` instead keeps the backing array: the next `PutLIDsInQueue` writes into the
+cells the merge is reading -/
+theorem c01_counterexample_queue_reset :
+    LidQ.view (LidQ.puts (LidQ.take [5, 6, 7] 8 false) [[9]]) = [9, 6, 7] := by decide
+
 /-! ## `frac.FileWriter`: group commit (Model/FileWriter.lean - a labelled transition system with one label per
 atomic step of writers and of `syncLoop`; `SV.FWr.exec` accepts exactly its paths; the `fw.trace` channel replays
 logged traces of the real FileWriter through it) -/
@@ -505,6 +522,13 @@ theorem c01_x_write_order :
       "disk.DocBlock(meta).SetExt1 uint64(len(docs))", "disk.DocBlock(meta).SetExt2 uint64(offset)",
       "a.meta.Write meta"] ∧
     appendCalls = ["f.writer.Write", "f.indexer.Index"] := by decide
+
+open SV.Extracted.C01 in
+/-- `getQueuedLIDs` leaves the token with a nil queue after taking it (the by-value hand-over of
+`c01_queue_handover_by_value`); `PutLIDsInQueue` grows the queue with `append` -/
+theorem c01_x_queue_handover :
+    getQueuedLIDsStmts = ["return nil", "lids := tl.queue", "tl.queue = nil", "return lids"] ∧
+    putLIDsStmts = ["append(tl.queue, lids...)"] := by decide
 
 open SV.Extracted.C01 in
 /-- the handler chain is the one `SV.BulkH` models: `Bulk` has a single return and it passes `doBulk`'s error on
